@@ -46,3 +46,13 @@ Definition strict_edges (edges : list (N * N)) : list (N * N) := filter (fun e =
 Definition cycles (ncl : nat) (edges : list (N * N)) : list (N * N) :=
   filter (fun e => fst e =? snd e) (closure ncl (strict_edges edges)).
 Definition order_ok (ncl : nat) (edges : list (N * N)) : bool := match cycles ncl edges with [] => true | _ => false end.
+
+(* the table of classes a call may acquire is closed under "calls": it contains each function's own Lock instructions
+   and, for every synchronous call, everything the callee's entry contains *)
+Definition acq_closed (prog : list rfunc) (A : list cset) : bool :=
+  Nat.eqb (length A) (length prog) &&
+  forallb (fun x => let '(i, f) := x in
+             let a := nth i A [] in
+             csub (direct_acq f) a && forallb (fun g => csub (nth (N.to_nat g) A []) a) (callees f))
+          (combine (seq 0 (length prog)) prog).
+
